@@ -1,10 +1,12 @@
 (* Proofs about Model/MemOpsModel.v (how sevm.py drives ByteVec for the memory
    instructions) against Spec/MemSpec.v (EVM memory semantics on flat arrays).
    1. wiring: the definitions regenerated from the Python (Gen/GenMemWire.v,
-      Gen/GenCodeSlice.v) are the offset/size arithmetic the flat semantics needs;
-   2. canonical forms of the wrappers; 3. each wrapper / instruction refines the flat
-      operation; 4. operation sequences incl. message calls; 5. pointwise reading of the
-      specification. *)
+      Gen/GenCodeSlice.v) meet what the flat semantics needs -- stated as requirements
+      (a copy is skipped only when there is nothing to copy, start = offset, stop =
+      offset + size, ...), not as syntactic equalities, so that an equivalent guard in the
+      Python still passes while a wrong offset / bound / operand order does not;
+   2. each wrapper / instruction refines the flat operation; 3. operation sequences incl.
+      message calls; 4. pointwise reading of the specification. *)
 From Coq Require Import List Arith Bool Lia ZArith.
 From HV Require Import Spec.ByteVecSpec Spec.MemSpec Gen.GenMemWire Gen.GenCodeSlice
   Model.ByteVecModel Model.MemOpsModel Proofs.ByteVecProofs.
@@ -21,91 +23,94 @@ Ltac bool_cases :=
   | |- context [Nat.eqb ?a ?b] => destruct (Nat.eqb_spec a b)
   | |- context [Nat.ltb ?a ?b] => destruct (Nat.ltb_spec a b)
   | |- context [Nat.leb ?a ?b] => destruct (Nat.leb_spec a b)
-  end; cbn [negb andb orb]; try reflexivity; try lia.
+  end; cbn [negb andb orb]; try reflexivity; try discriminate; try lia.
 
-Ltac wire_z := unfold zn2, zn3; lia.
-Ltac wire_b := unfold zb1, zb2, zb3, zb4; rewrite ?Z.gtb_ltb, ?Z.geb_leb; bool_cases.
+Ltac wire :=
+  unfold zn2, zn3, zb1, zb2, zb3, zb4; rewrite ?Z.gtb_ltb, ?Z.geb_leb;
+  try lia; try (intros Hwire; revert Hwire); bool_cases; intros; try discriminate; try lia.
 
-Lemma w_mslice_empty : forall size, zb1 mslice_empty size = (size =? 0).
-Proof. intros. unfold mslice_empty. wire_b. Qed.
-Lemma w_mslice_start : forall loc size, zn2 mslice_start loc size = loc.
-Proof. intros. unfold mslice_start. wire_z. Qed.
-Lemma w_mslice_stop : forall loc size, zn2 mslice_stop loc size = loc + size.
-Proof. intros. unfold mslice_stop. wire_z. Qed.
+(* State.mslice: the early empty result only for size 0; reads [loc, loc + size) *)
+Lemma w_mslice : forall loc size,
+  (zb2 mslice_empty loc size = true -> size = 0) /\
+  zn2 mslice_start loc size = loc /\ zn2 mslice_stop loc size = loc + size.
+Proof.
+  intros. unfold mslice_empty, mslice_start, mslice_stop. repeat split; wire.
+Qed.
 
-Lemma w_set_mslice_skip : forall size, zb1 set_mslice_skip size = (size =? 0).
-Proof. intros. unfold set_mslice_skip. wire_b. Qed.
-Lemma w_set_mslice_start : forall loc size, zn2 set_mslice_start loc size = loc.
-Proof. intros. unfold set_mslice_start. wire_z. Qed.
-Lemma w_set_mslice_stop : forall loc size, zn2 set_mslice_stop loc size = loc + size.
-Proof. intros. unfold set_mslice_stop. wire_z. Qed.
+(* State.set_mslice: skipped only for empty data; writes [loc, loc + len(data)) *)
+Lemma w_set_mslice : forall loc size,
+  (zb2 set_mslice_skip loc size = true -> size = 0) /\
+  zn2 set_mslice_start loc size = loc /\ zn2 set_mslice_stop loc size = loc + size.
+Proof.
+  intros. unfold set_mslice_skip, set_mslice_start, set_mslice_stop. repeat split; wire.
+Qed.
 
-Lemma w_calldata_slice_start : forall start size, zn2 calldata_slice_start start size = start.
-Proof. intros. unfold calldata_slice_start. wire_z. Qed.
-Lemma w_calldata_slice_stop : forall start size, zn2 calldata_slice_stop start size = start + size.
-Proof. intros. unfold calldata_slice_stop. wire_z. Qed.
+Lemma w_calldata_slice : forall start size,
+  zn2 calldata_slice_start start size = start /\ zn2 calldata_slice_stop start size = start + size.
+Proof.
+  intros. unfold calldata_slice_start, calldata_slice_stop. split; wire.
+Qed.
 
-Lemma w_retcopy_effective : forall ret_size actual, zn2 retcopy_effective ret_size actual = Nat.min ret_size actual.
-Proof. intros. unfold retcopy_effective. wire_z. Qed.
-Lemma w_retcopy_skip : forall eff, zb1 retcopy_skip eff = (eff =? 0).
-Proof. intros. unfold retcopy_skip. wire_b. Qed.
-Lemma w_retcopy_partial : forall eff actual, zb2 retcopy_partial eff actual = (eff <? actual).
-Proof. intros. unfold retcopy_partial. wire_b. Qed.
-Lemma w_retcopy_slice_start : forall eff actual, zn2 retcopy_slice_start eff actual = 0.
-Proof. intros. unfold retcopy_slice_start. wire_z. Qed.
-Lemma w_retcopy_slice_stop : forall eff actual, zn2 retcopy_slice_stop eff actual = eff.
-Proof. intros. unfold retcopy_slice_stop. wire_z. Qed.
+(* copy_returndata_to_memory: nothing written only when min(ret_size, actual) = 0; the
+   partial copy is [0, min(ret_size, actual)); the whole object only when all of it fits *)
+Lemma w_retcopy : forall ret_size actual,
+  (zb2 retcopy_skip ret_size actual = true -> Nat.min ret_size actual = 0) /\
+  (zb2 retcopy_partial ret_size actual = true ->
+     zn2 retcopy_slice_start ret_size actual = 0 /\
+     zn2 retcopy_slice_stop ret_size actual = Nat.min ret_size actual) /\
+  (zb2 retcopy_partial ret_size actual = false -> actual <= ret_size).
+Proof.
+  intros. unfold retcopy_skip, retcopy_partial, retcopy_slice_start, retcopy_slice_stop.
+  split; [|split]; [wire | intros _; split; wire | wire].
+Qed.
 
-(* CALLDATACOPY / CODECOPY / EXTCODECOPY: (destOffset, offset, size) popped in this order;
-   copy iff size <> 0; source = wrapper(offset, size); destination = destOffset *)
+(* CALLDATACOPY / CODECOPY / EXTCODECOPY: operands (destOffset, offset, size) in stack order;
+   the copy is skipped only for size 0; source = wrapper(offset, size); destination =
+   destOffset *)
 Lemma w_calldatacopy : forall loc off size,
-  zb1 calldatacopy_do size = negb (size =? 0) /\ zn3 calldatacopy_a1 loc off size = off /\
+  (zb3 calldatacopy_do loc off size = false -> size = 0) /\ zn3 calldatacopy_a1 loc off size = off /\
   zn3 calldatacopy_a2 loc off size = size /\ zn3 calldatacopy_dst loc off size = loc.
 Proof.
-  intros. unfold calldatacopy_do, calldatacopy_a1, calldatacopy_a2, calldatacopy_dst.
-  repeat split; try wire_z. wire_b.
+  intros. unfold calldatacopy_do, calldatacopy_a1, calldatacopy_a2, calldatacopy_dst. repeat split; wire.
 Qed.
 Lemma w_codecopy : forall loc off size,
-  zb1 codecopy_do size = negb (size =? 0) /\ zn3 codecopy_a1 loc off size = off /\
+  (zb3 codecopy_do loc off size = false -> size = 0) /\ zn3 codecopy_a1 loc off size = off /\
   zn3 codecopy_a2 loc off size = size /\ zn3 codecopy_dst loc off size = loc.
 Proof.
-  intros. unfold codecopy_do, codecopy_a1, codecopy_a2, codecopy_dst.
-  repeat split; try wire_z. wire_b.
+  intros. unfold codecopy_do, codecopy_a1, codecopy_a2, codecopy_dst. repeat split; wire.
 Qed.
 Lemma w_extcodecopy : forall loc off size,
-  zb1 extcodecopy_do size = negb (size =? 0) /\ zn3 extcodecopy_a1 loc off size = off /\
+  (zb3 extcodecopy_do loc off size = false -> size = 0) /\ zn3 extcodecopy_a1 loc off size = off /\
   zn3 extcodecopy_a2 loc off size = size /\ zn3 extcodecopy_dst loc off size = loc /\
   zn3 extcodecopy_none_start loc off size = off /\ zn3 extcodecopy_none_stop loc off size = off + size.
 Proof.
   intros. unfold extcodecopy_do, extcodecopy_a1, extcodecopy_a2, extcodecopy_dst,
-    extcodecopy_none_start, extcodecopy_none_stop.
-  repeat split; try wire_z. wire_b.
+    extcodecopy_none_start, extcodecopy_none_stop. repeat split; wire.
 Qed.
 (* RETURNDATACOPY: halts iff offset + size > RETURNDATASIZE; source = slice(offset, offset + size) *)
 Lemma w_returndatacopy : forall loc off size rdsize,
   zb4 returndatacopy_oob loc off size rdsize = (rdsize <? off + size) /\
-  zb1 returndatacopy_do size = negb (size =? 0) /\ zn3 returndatacopy_a1 loc off size = off /\
+  (zb3 returndatacopy_do loc off size = false -> size = 0) /\ zn3 returndatacopy_a1 loc off size = off /\
   zn3 returndatacopy_a2 loc off size = off + size /\ zn3 returndatacopy_dst loc off size = loc.
 Proof.
   intros. unfold returndatacopy_oob, returndatacopy_do, returndatacopy_a1, returndatacopy_a2, returndatacopy_dst.
-  repeat split; try wire_z; wire_b.
+  repeat split; wire.
 Qed.
-(* MCOPY: (dst, src, size) *)
+(* MCOPY: operands (dst, src, size) *)
 Lemma w_mcopy : forall dst src size,
-  zb1 mcopy_do size = negb (size =? 0) /\ zn3 mcopy_a1 dst src size = src /\
+  (zb3 mcopy_do dst src size = false -> size = 0) /\ zn3 mcopy_a1 dst src size = src /\
   zn3 mcopy_a2 dst src size = size /\ zn3 mcopy_dst dst src size = dst.
 Proof.
-  intros. unfold mcopy_do, mcopy_a1, mcopy_a2, mcopy_dst.
-  repeat split; try wire_z. wire_b.
+  intros. unfold mcopy_do, mcopy_a1, mcopy_a2, mcopy_dst. repeat split; wire.
 Qed.
-(* Contract.slice *)
+(* Contract.slice: the fast path only when the request lies inside the concrete prefix *)
 Lemma w_code_slice : forall start size fclen,
-  zb3 code_slice_fast start size fclen = (start + size <? fclen) /\
+  (zb3 code_slice_fast start size fclen = true -> start + size <= fclen) /\
   zn2 code_fast_lo start size = start /\ zn2 code_fast_hi start size = start + size /\
   zn2 code_slow_start start size = start /\ zn2 code_slow_stop start size = start + size.
 Proof.
   intros. unfold code_slice_fast, code_fast_lo, code_fast_hi, code_slow_start, code_slow_stop.
-  repeat split; try wire_z. wire_b.
+  repeat split; wire.
 Qed.
 
 Lemma w_msize_round : forall n, Z.to_nat (msize_round (Z.of_nat n)) = round32 n.
@@ -142,11 +147,13 @@ Proof. intros. reflexivity. Qed.
 Lemma mem_write_nil : forall (l : list B) loc, mem_write l loc [] = l.
 Proof. reflexivity. Qed.
 
-Lemma fa_set_slice_mem_write : forall (l : list B) loc data, 0 < length data ->
+Lemma fa_set_slice_mem_write : forall (l : list B) loc data,
   fa_set_slice l loc (loc + length data) data = Some (mem_write l loc data).
 Proof.
-  intros l loc data H. rewrite fa_set_slice_some by lia.
-  unfold MemSpec.mem_write, zext, zeros. destruct data; [cbn in H; lia|]. reflexivity.
+  intros l loc data. destruct data as [|x r].
+  - cbn [length]. unfold ByteVecSpec.fa_set_slice. rewrite Nat.add_0_r, Nat.eqb_refl. reflexivity.
+  - rewrite fa_set_slice_some by (cbn [length]; lia).
+    unfold MemSpec.mem_write, zext, zeros. reflexivity.
 Qed.
 
 Lemma fa_set_byte_mem_write : forall (l : list B) off x, fa_set_byte l off x = mem_write l off [x].
@@ -176,43 +183,6 @@ Notation read_padded := (read_padded B zero).
 Notation mem_write := (mem_write B zero).
 Notation mem_copy := (mem_copy B zero).
 
-Lemma mslice_eq : forall (mem : bvec) loc size,
-  mslice mem loc size = if size =? 0 then empty else bslice mem loc (loc + size).
-Proof.
-  intros. unfold MemOpsModel.mslice. rewrite w_mslice_empty, w_mslice_start, w_mslice_stop. reflexivity.
-Qed.
-
-Lemma set_mslice_eq : forall (mem : bvec) loc (data : bvec),
-  set_mslice mem loc data =
-  if blen data =? 0 then Some mem else set_slice mem loc (loc + blen data) (as_chunk None data).
-Proof.
-  intros. unfold MemOpsModel.set_mslice.
-  rewrite w_set_mslice_skip, w_set_mslice_start, w_set_mslice_stop. reflexivity.
-Qed.
-
-Lemma calldata_slice_eq : forall (cd : bvec) start size,
-  calldata_slice cd start size = bslice cd start (start + size).
-Proof.
-  intros. unfold MemOpsModel.calldata_slice. rewrite w_calldata_slice_start, w_calldata_slice_stop. reflexivity.
-Qed.
-
-Lemma contract_slice_eq : forall (code : bvec) start size,
-  contract_slice code start size =
-  match fastcode code with
-  | Some fc =>
-      if negb (length fc =? 0) && (start + size <? length fc)
-      then of_bytes (firstn size (skipn start fc))
-      else bslice code start (start + size)
-  | None => bslice code start (start + size)
-  end.
-Proof.
-  intros. unfold MemOpsModel.contract_slice.
-  destruct (fastcode code) as [fc|].
-  - destruct (w_code_slice start size (length fc)) as (-> & -> & -> & -> & ->).
-    unfold py_bytes_slice. replace (start + size - start) with size by lia. reflexivity.
-  - destruct (w_code_slice start size 0) as (_ & _ & _ & -> & ->). reflexivity.
-Qed.
-
 Lemma as_chunk_wfc : forall (v : bvec), wf v -> wfc (as_chunk None v).
 Proof. intros v H. constructor. exact H. Qed.
 
@@ -227,8 +197,10 @@ Lemma mslice_correct : forall (mem : bvec) loc size, wf mem ->
   wf (mslice mem loc size) /\ flat (mslice mem loc size) = read_padded (flat mem) loc size /\
   blen (mslice mem loc size) = size.
 Proof.
-  intros mem loc size H. rewrite mslice_eq. destruct (Nat.eqb_spec size 0) as [-> | Hs].
-  - split; [apply wf_empty | split; reflexivity].
+  intros mem loc size H. unfold MemOpsModel.mslice.
+  destruct (w_mslice loc size) as (He & -> & ->).
+  destruct (zb2 mslice_empty loc size).
+  - rewrite (He eq_refl). split; [apply wf_empty | split; reflexivity].
   - destruct (bslice_correct B zero mem loc (loc + size) H) as (H1 & H2 & H3).
     rewrite fa_slice_read_padded in H2. split; [exact H1 | split; [exact H2 | lia]].
 Qed.
@@ -237,23 +209,25 @@ Qed.
 Lemma set_mslice_correct : forall (mem : bvec) loc (data : bvec), wf mem -> wf data ->
   exists m', set_mslice mem loc data = Some m' /\ wf m' /\ flat m' = mem_write (flat mem) loc (flat data).
 Proof.
-  intros mem loc data Hm Hd. rewrite set_mslice_eq.
+  intros mem loc data Hm Hd. unfold MemOpsModel.set_mslice.
   pose proof (flat_length B data Hd) as HL.
-  destruct (Nat.eqb_spec (blen data) 0) as [E | E].
+  destruct (w_set_mslice loc (blen data)) as (Hs & -> & ->).
+  destruct (zb2 set_mslice_skip loc (blen data)).
   - exists mem. split; [reflexivity | split; [exact Hm|]].
-    rewrite (length_zero_nil B (flat data)) by lia. reflexivity.
+    rewrite (length_zero_nil B (flat data)) by (rewrite HL; apply Hs; reflexivity). reflexivity.
   - pose proof (set_slice_correct B zero mem loc (loc + blen data) (as_chunk None data) Hm (as_chunk_wfc data Hd)) as H.
     rewrite as_chunk_flat in H.
     assert (Hfs : fa_set_slice B zero (flat mem) loc (loc + blen data) (flat data) =
                   Some (mem_write (flat mem) loc (flat data))).
-    { rewrite <- HL. apply fa_set_slice_mem_write. lia. }
+    { rewrite <- HL. apply fa_set_slice_mem_write. }
     rewrite Hfs in H. exact H.
 Qed.
 
 Lemma calldata_slice_correct : forall (cd : bvec) start size, wf cd ->
   wf (calldata_slice cd start size) /\ flat (calldata_slice cd start size) = read_padded (flat cd) start size.
 Proof.
-  intros cd start size H. rewrite calldata_slice_eq.
+  intros cd start size H. unfold MemOpsModel.calldata_slice.
+  destruct (w_calldata_slice start size) as (-> & ->).
   destruct (bslice_correct B zero cd start (start + size) H) as (H1 & H2 & _).
   rewrite fa_slice_read_padded in H2. split; assumption.
 Qed.
@@ -282,15 +256,18 @@ Lemma contract_slice_correct : forall (code : bvec) start size, wf code ->
   wf (contract_slice code start size) /\
   flat (contract_slice code start size) = read_padded (flat code) start size.
 Proof.
-  intros code start size H. rewrite contract_slice_eq.
+  intros code start size H. unfold MemOpsModel.contract_slice.
   assert (Hslow : wf (bslice code start (start + size)) /\
                   flat (bslice code start (start + size)) = read_padded (flat code) start size).
   { destruct (bslice_correct B zero code start (start + size) H) as (H1 & H2 & _).
     rewrite fa_slice_read_padded in H2. split; assumption. }
-  destruct (fastcode code) as [fc|] eqn:Ef; [|exact Hslow].
-  destruct (negb (length fc =? 0) && (start + size <? length fc)) eqn:Ec; [|exact Hslow].
-  apply andb_prop in Ec. destruct Ec as [_ Ec]. apply Nat.ltb_lt in Ec.
+  destruct (fastcode code) as [fc|] eqn:Ef.
+  2:{ destruct (w_code_slice start size 0) as (_ & _ & _ & -> & ->). exact Hslow. }
+  destruct (w_code_slice start size (length fc)) as (Hfast & -> & -> & -> & ->).
+  destruct (negb (length fc =? 0) && zb3 code_slice_fast start size (length fc)) eqn:Ec; [|exact Hslow].
+  apply andb_prop in Ec. destruct Ec as [_ Ec]. apply Hfast in Ec.
   destruct (fastcode_prefix code fc H Ef) as [rest Hr].
+  unfold py_bytes_slice. replace (start + size - start) with size by lia.
   destruct (of_bytes_correct (firstn size (skipn start fc))) as [H1 H2].
   split; [exact H1|]. rewrite H2, Hr. unfold MemSpec.read_padded.
   rewrite skipn_app. replace (start - length fc) with 0 by lia. cbn [skipn].
@@ -313,17 +290,18 @@ Lemma copy_returndata_correct : forall (rd : bvec) ret_loc ret_size (mem : bvec)
              flat m' = mem_write (flat mem) ret_loc (firstn (Nat.min ret_size (length (flat rd))) (flat rd)).
 Proof.
   intros rd ret_loc ret_size mem Hr Hm. unfold MemOpsModel.copy_returndata_to_memory.
-  rewrite w_retcopy_effective, w_retcopy_skip, w_retcopy_partial, w_retcopy_slice_start, w_retcopy_slice_stop.
   pose proof (flat_length B rd Hr) as HL. rewrite HL.
-  set (eff := Nat.min ret_size (blen rd)).
-  destruct (Nat.eqb_spec eff 0) as [E | E].
-  - exists mem. rewrite E. split; [reflexivity | split; [exact Hm | reflexivity]].
-  - destruct (Nat.ltb_spec eff (blen rd)) as [E2 | E2].
-    + destruct (bslice_correct B zero rd 0 eff Hr) as (H1 & H2 & _).
-      destruct (set_mslice_correct mem ret_loc (bslice rd 0 eff) Hm H1) as (m' & Hs & Hw & Hf).
+  destruct (w_retcopy ret_size (blen rd)) as (Hskip & Hpart & Hwhole).
+  destruct (zb2 retcopy_skip ret_size (blen rd)).
+  - exists mem. rewrite (Hskip eq_refl). split; [reflexivity | split; [exact Hm | reflexivity]].
+  - destruct (zb2 retcopy_partial ret_size (blen rd)).
+    + destruct (Hpart eq_refl) as [-> ->].
+      destruct (bslice_correct B zero rd 0 (Nat.min ret_size (blen rd)) Hr) as (H1 & H2 & _).
+      destruct (set_mslice_correct mem ret_loc (bslice rd 0 (Nat.min ret_size (blen rd))) Hm H1) as (m' & Hs & Hw & Hf).
       exists m'. split; [exact Hs | split; [exact Hw|]]. rewrite Hf, H2.
       rewrite fa_slice_in by lia. rewrite Nat.sub_0_r. reflexivity.
-    + destruct (set_mslice_correct mem ret_loc rd Hm Hr) as (m' & Hs & Hw & Hf).
+    + specialize (Hwhole eq_refl).
+      destruct (set_mslice_correct mem ret_loc rd Hm Hr) as (m' & Hs & Hw & Hf).
       exists m'. split; [exact Hs | split; [exact Hw|]]. rewrite Hf.
       rewrite firstn_all2 by lia. reflexivity.
 Qed.
@@ -378,7 +356,7 @@ Proof.
   pose proof (cflat_length B val Hv) as HL.
   assert (Hfs : fa_set_slice B zero (flat mem) loc (loc + 32) (cflat val) =
                 Some (mem_write (flat mem) loc (cflat val))).
-  { replace 32 with (length (cflat val)) by lia. apply fa_set_slice_mem_write. lia. }
+  { replace 32 with (length (cflat val)) by lia. apply fa_set_slice_mem_write. }
   rewrite Hfs in H. exact H.
 Qed.
 
@@ -416,46 +394,47 @@ Proof.
   - (* CALLDATACOPY / CODECOPY / EXTCODECOPY *)
     unfold MemSpec.mem_copy.
     destruct s as [| | c]; cbn [abs_src src_bytes f_cd f_code].
-    + destruct (w_calldatacopy loc off size) as (-> & -> & -> & ->).
-      destruct (Nat.eqb_spec size 0) as [-> | Hs]; cbn [negb].
-      * rewrite read_padded_0, mem_write_nil. apply size0_refines. exact Hst.
+    + destruct (w_calldatacopy loc off size) as (Hdo & -> & -> & ->).
+      destruct (zb3 calldatacopy_do loc off size).
       * apply lift_refines; [exact Hst|].
         destruct (calldata_slice_correct B zero (m_cd e) off size Hcd) as [H1 H2].
         rewrite <- H2. apply set_mslice_correct; assumption.
-    + destruct (w_codecopy loc off size) as (-> & -> & -> & ->).
-      destruct (Nat.eqb_spec size 0) as [-> | Hs]; cbn [negb].
-      * rewrite read_padded_0, mem_write_nil. apply size0_refines. exact Hst.
+      * rewrite (Hdo eq_refl), read_padded_0, mem_write_nil. apply size0_refines. exact Hst.
+    + destruct (w_codecopy loc off size) as (Hdo & -> & -> & ->).
+      destruct (zb3 codecopy_do loc off size).
       * apply lift_refines; [exact Hst|].
         destruct (contract_slice_correct B zero (m_code e) off size Hcode) as [H1 H2].
         rewrite <- H2. apply set_mslice_correct; assumption.
-    + destruct (w_extcodecopy loc off size) as (-> & -> & -> & -> & -> & ->).
-      destruct (Nat.eqb_spec size 0) as [-> | Hs]; cbn [negb].
-      * destruct c; cbn [abs_src src_bytes]; rewrite read_padded_0, mem_write_nil; apply size0_refines; exact Hst.
+      * rewrite (Hdo eq_refl), read_padded_0, mem_write_nil. apply size0_refines. exact Hst.
+    + destruct (w_extcodecopy loc off size) as (Hdo & -> & -> & -> & -> & ->).
+      destruct (zb3 extcodecopy_do loc off size).
       * apply lift_refines; [exact Hst|]. destruct c as [code|]; cbn [abs_src src_bytes].
         -- cbn [mbop_ok] in Hok.
            destruct (contract_slice_correct B zero code off size Hok) as [H1 H2].
            rewrite <- H2. apply set_mslice_correct; assumption.
         -- destruct (empty_slice_correct B zero off size) as [H1 H2].
            rewrite <- H2. apply set_mslice_correct; assumption.
+      * rewrite (Hdo eq_refl).
+        destruct c; cbn [abs_src src_bytes]; rewrite read_padded_0, mem_write_nil; apply size0_refines; exact Hst.
   - (* RETURNDATACOPY *)
-    destruct (w_returndatacopy loc off size (blen (m_rd st))) as (-> & -> & -> & -> & ->).
+    destruct (w_returndatacopy loc off size (blen (m_rd st))) as (-> & Hdo & -> & -> & ->).
     rewrite (flat_length B (m_rd st) Hrd).
     destruct (blen (m_rd st) <? off + size); [reflexivity|].
     unfold MemSpec.mem_copy.
-    destruct (Nat.eqb_spec size 0) as [-> | Hs]; cbn [negb].
-    + rewrite read_padded_0, mem_write_nil. apply size0_refines. exact Hst.
+    destruct (zb3 returndatacopy_do loc off size).
     + apply lift_refines; [exact Hst|].
       destruct (bslice_correct B zero (m_rd st) off (off + size) Hrd) as (H1 & H2 & _).
       rewrite fa_slice_read_padded in H2.
       rewrite <- H2. apply set_mslice_correct; assumption.
+    + rewrite (Hdo eq_refl), read_padded_0, mem_write_nil. apply size0_refines. exact Hst.
   - (* MCOPY *)
-    destruct (w_mcopy dst src size) as (-> & -> & -> & ->).
+    destruct (w_mcopy dst src size) as (Hdo & -> & -> & ->).
     unfold MemSpec.mem_copy.
-    destruct (Nat.eqb_spec size 0) as [-> | Hs]; cbn [negb].
-    + rewrite read_padded_0, mem_write_nil. apply size0_refines. exact Hst.
+    destruct (zb3 mcopy_do dst src size).
     + apply lift_refines; [exact Hst|].
       destruct (mslice_correct B zero (m_mem st) src size Hm) as (H1 & H2 & _).
       rewrite <- H2. apply set_mslice_correct; assumption.
+    + rewrite (Hdo eq_refl), read_padded_0, mem_write_nil. apply size0_refines. exact Hst.
   - (* MLOAD ; MSTORE *)
     unfold MemSpec.mem_copy. apply lift_refines; [exact Hst|].
     destruct (word_chunk_correct (m_mem st) src Hm) as (H1 & H2 & H3).
@@ -563,7 +542,7 @@ Proof.
   intros mem loc src off size i Hs. unfold MemSpec.mem_copy.
   pose proof (read_padded_length B zero src off size) as HL.
   pose proof (fa_set_slice_mem_write B zero mem loc (read_padded src off size)) as H.
-  rewrite HL in H. specialize (H Hs).
+  rewrite HL in H.
   split.
   - apply (fa_set_slice_length B zero mem loc (loc + size) _ _ ltac:(lia) H).
   - rewrite (fa_set_slice_nth B zero mem loc (loc + size) _ _ i ltac:(lia) H).
